@@ -734,7 +734,7 @@ def translate_keytables() -> tuple[str, dict]:
         return re.sub(r'[^A-Za-z0-9]+', '_', q).strip('_')
     for n, _, _, _ in tables_out:
         ob_defs[f'table:{n}'] = f'kt_ok_table_{ident(n)}'
-        lines.append(f'Definition kt_ok_table_{ident(n)} : bool := dedup_ok_named kt_tables {coq_s(n)}.')
+        lines.append(f'Definition kt_ok_table_{ident(n)} : bool := dedup_ok_named kt_tables {coq_s(n)} && negb (existsb (String.eqb {coq_s(n)}) kt_mixed).')
     for n, _ in classes_out:
         ob_defs[f'class:{n}'] = f'kt_ok_class_{ident(n)}'
         lines.append(f'Definition kt_ok_class_{ident(n)} : bool := class_ok_named kt_classes {coq_s(n)}.')
@@ -743,7 +743,7 @@ def translate_keytables() -> tuple[str, dict]:
         'Definition kt_ok_bone_eq_is_name : bool := class_eq_is kt_classes "smd.Bone" key_name_exact.',
         'Definition kt_ok_smd_reader_key : bool := reader_key_is kt_reader_keys "smd.Mesh.parse_smd" key_name_exact.',
         'Definition kt_ok_cmdseq_reader_key : bool := reader_key_is kt_reader_keys "cmdseq.parse" key_value_exact.',
-        'Definition kt_ok_pool_table_present : bool := has_table kt_tables "choreo.save_scenes_image_sync:add_to_pool" && no_strings kt_mixed.',
+        'Definition kt_ok_pool_table_present : bool := has_table kt_tables "choreo.save_scenes_image_sync:add_to_pool".',
         '',
     ]
     side = {'obligation_defs': ob_defs, 'classes': {n: coq_mode(m) for n, m in classes_out}, 'tables': {n: coq_spec(s) for n, _, _, s in tables_out},
